@@ -21,7 +21,7 @@ def run(tier, seed):
                 'system2mpc is proved for at most one PQ and one Shunt per bus; several loads per bus is known finding F14 '
                 '(native replay)',
                 'not decided / not reachable: tokenising RAW/DYR text, the yaml-driven DYR mapping, three-winding transformers, '
-                'xlsx / json round trips (pandas, openpyxl)')
+                'xlsx / json round trips (pandas, openpyxl): bounded native stand-in on three stock cases only')
     items = [(F.numparam_add('C13'),), (F.sanitize('C13'),), (F.mpc2system('C13'),), (F.system2mpc('C13'),),
              (F.psse_bus('C13'),), (F.psse_load('C13'),), (F.psse_fshunt('C13'),), (F.psse_gen('C13'),), (F.psse_line('C13'),),
              (F.psse_transf2('C13'), F.WIT_TRANSF, F.replay_transf)]
@@ -40,4 +40,5 @@ def run(tier, seed):
                 pack.known_finding(k)
         elif r.get('confirmed'):
             pack.violation(name, {'native': r})
+    F.bounded_file_roundtrip(pack, 'C13')
     return pack.finish()
